@@ -302,6 +302,36 @@ def dispatcher_try_per_task(server_tree):
     return ok
 
 
+def pio_clause_payload_free(server_tree):
+    """True iff the dispatcher's reaction to a PathIOError does not depend on what the exception object carries: every
+    `except ... PathIOError ...` clause of Server.dispatcher either binds no name, or uses the bound name only as a direct
+    argument of a `logger.<level>(...)` call.  (PathIOError is public: `reason` is optional and of no fixed shape, a
+    backend may raise a subclass with a constructor of its own - a clause that reads `exc.reason`, `exc.args[0]`,
+    unpacks or formats it can raise for some backend, and an exception in that clause ends the session.)"""
+    srv = [n for n in server_tree.body if isinstance(n, ast.ClassDef) and n.name == "Server"][0]
+    disp = [m for m in srv.body if isinstance(m, ast.AsyncFunctionDef) and m.name == "dispatcher"]
+    if len(disp) != 1:
+        raise Unclassified("Server.dispatcher not found")
+    clauses = [h for h in ast.walk(disp[0]) if isinstance(h, ast.ExceptHandler) and h.type is not None and "PathIOError" in src(h.type)]
+    if not clauses:
+        raise Unclassified("dispatcher: no except clause for PathIOError")
+    for h in clauses:
+        if h.name is None:
+            continue
+        allowed = set()
+        for stmt in h.body:
+            for n in ast.walk(stmt):
+                if isinstance(n, ast.Call) and isinstance(n.func, ast.Attribute) and src(n.func.value) == "logger":
+                    for a in list(n.args) + [k.value for k in n.keywords]:
+                        if isinstance(a, ast.Name) and a.id == h.name:
+                            allowed.add(id(a))
+        for stmt in h.body:
+            for n in ast.walk(stmt):
+                if isinstance(n, ast.Name) and n.id == h.name and id(n) not in allowed:
+                    return False
+    return True
+
+
 def _ordered(node):
     """ast nodes in source order"""
     nodes = [n for n in ast.walk(node) if hasattr(n, "lineno")]
@@ -347,6 +377,7 @@ def generate(src_dir):
     wctx = worker_contexts(stree)
     catches = local_catch_sites(stree)
     per_task = dispatcher_try_per_task(stree)
+    payload_free = pio_clause_payload_free(stree)
 
     def row(c, es):
         return "(" + S(c) + ", [" + "; ".join("(" + S(m) + ", " + slist(ds) + ")" for m, ds in es) + "])"
@@ -369,6 +400,9 @@ def generate(src_dir):
     text += "Definition local_catch_sites : list (string * (string * list string)) := [" + "; ".join("(" + S(f) + ", (" + S(k) + ", " + slist(cs) + "))" for f, k, cs in catches) + "].\n\n"
     text += "(* the dispatcher takes the finished tasks one by one, each `task.result()` under its own try (except errors.PathIOError) *)\n"
     text += f"Definition dispatcher_try_per_task : bool := {emit.boolean(per_task)}.\n\n"
+    text += "(* the dispatcher's PathIOError clause(s) never read the exception object (at most hand it to a logger call): the reaction\n"
+    text += "   cannot depend on - or fail on - the shape of the PathIOError a backend raises (reason=None, other reason, subclass) *)\n"
+    text += f"Definition pio_clause_payload_free : bool := {emit.boolean(payload_free)}.\n\n"
     text += "(* worker -> file context variable -> methods called on it inside its async with, in source order *)\n"
     text += "Definition worker_file_calls : list (string * list (string * list string)) := [\n  " + ";\n  ".join(row(w, cs) for w, cs in wcalls) + "\n].\n"
     return text
